@@ -274,7 +274,8 @@ def all_mode_stdout_by_evaluation(prog):
 
             def parse_stub(env, *a):
                 i = cur(env)
-                return ("E%d" % i, "{DOC%d}" % i) if outcome[i] == "doc" else ("", "")
+                # (two files may carry the same entry id - copies of one log: both are documents of the array)
+                return ("E%d" % (i % 2), "{DOC%d}" % i) if outcome[i] == "doc" else ("", "")
             parse_stub.wants_env = True
 
             def sym_hook(t, env, _inner=[None]):
@@ -469,3 +470,8 @@ def run(rep, prog, thorough):
     # (rule shared with C05)
     from .c05 import check_stream_guards
     check_stream_guards(rep, prog)
+    # an undecodable file may not change what is reported for the files after it: nothing a (failing) decode leaves behind
+    # is read by a later one (rule shared with C19)
+    from .c05 import decoder_runs
+    from .c19 import check_decode_state
+    check_decode_state(rep, prog, decoder_runs(prog))
